@@ -1,9 +1,10 @@
 """C19 — send-side buffering bounded, back-pressure (component level: UserTx + write half)."""
-from . import common, txgen
+from . import common, txgen, concgen
 
 TRUSTED_BASE = common.BASE_TRUSTED + [common.NO_AXIOMS]
 ASSUMPTIONS = [
-    "each method of UserTx / UtpStreamWriteHalf is atomic (holds the locks for its whole body)",
+    "each method of UserTx / UtpStreamWriteHalf is atomic (holds the locks for its whole body) - not proved; validated on every run by the "
+    "two-thread component txconc (writer thread against grow / truncate_front): nothing lost, nothing duplicated, capacity within max(initial, max)",
     "ringbuf's push_slice / skip / as_slices behave as a FIFO byte queue of the given capacity (memory safety of the crate not modelled)",
     "the dispatcher's wake of the writer after truncate_front / grow is the op `k`; that the dispatcher always pairs them is a connection-level fact",
     "grow is only ever called with the configured maximum",
@@ -41,4 +42,6 @@ def pred(line, out):
 
 
 COMPONENTS = [{"name": "tx", "keep": 2, "gen": txgen.gen, "nontrivial": nontrivial,
-               "classify": classify, "pred": pred}]
+               "classify": classify, "pred": pred},
+              # the atomicity assumption (first line of ASSUMPTIONS), tried on the real object by two threads
+              concgen.component_tx()]
